@@ -128,6 +128,13 @@ theorem written_by_either_stream_read_by_either (items : List CItem) (hi : ∀ i
 
 example : (⟨10, [], [], false⟩ : COS).Inv ∧ (⟨10, [], [], false⟩ : COS).abs = [] := by simp [COS.Inv, COS.abs]
 
+/-- Python writer stream to Python reader stream with **fixed-size numbers** (`struct` writes / reads) included. -/
+theorem python_stream_round_trip (items : List RItem) (w : COS) (hw : 10 ≤ w.cap) (hwinv : w.Inv) (hwe : w.abs = [])
+    (hi : ∀ i ∈ items, i.wok w.cap) (r : PIS) (hr : 0 < r.cap) (hrinv : r.Inv) (hf : ∀ i ∈ items, i.fits r.cap)
+    (rest : Bytes) (hp : r.pending = (Py.run w (items.map RItem.toW)).abs ++ rest) :
+    ∃ r', r.readItems items = .ok (items.map RItem.val) r' ∧ r'.pending = rest :=
+  Yardl.python_stream_round_trip items w hw hwinv hwe hi r hr hrinv hf rest hp
+
 /-- **The Python input stream, over whole read sequences.** A generated Python reader is a sequence of primitive
     reads of `CodedInputStream`; a reader that issues the reads matching what was written gets exactly the written
     items, in order, and leaves what follows unread — for every buffer size (fixed-size reads must fit it), every
